@@ -190,6 +190,11 @@ var cfg = func() runCfg {
 	return c
 }()
 
+const (
+	quickMult    = 4
+	thoroughMult = 8
+)
+
 func splitmix(x uint64) uint64 {
 	x += 0x9e3779b97f4a7c15
 	x = (x ^ (x >> 30)) * 0xbf58476d1ce4e5b9
@@ -206,9 +211,12 @@ func strHash(s string) uint64 {
 // cases returns the number of rapid checks this process should run for a test
 // whose whole-run budgets are quickN / thoroughN.
 func cases(quickN, thoroughN int) int {
-	n := quickN
+	// the per-test budgets written next to each test are base values; the tier
+	// multipliers bring the quick tier to roughly 5-20 s and the thorough tier
+	// to a few minutes per property on 16 cores
+	n := quickN * quickMult
 	if cfg.tier == "thorough" {
-		n = thoroughN
+		n = thoroughN * thoroughMult
 	}
 	n = int(float64(n) * cfg.scale)
 	n = (n + cfg.shards - 1) / cfg.shards
